@@ -37,7 +37,7 @@ func init() {
 const (
 	c14MemSoft   = 2 << 30  // GOMEMLIMIT of a worker
 	c14MemHard   = 10 << 30 // RLIMIT_AS of a worker: beyond this the Go runtime dies with "out of memory"
-	c14AllocCap  = 3 << 30  // oracle: bytes allocated by one battery (TotalAlloc delta)
+	c14AllocCap  = 3 << 30  // oracle: peak heap of one battery (HeapSys)
 	c14UnzipSize = 256 << 20
 )
 
@@ -59,6 +59,7 @@ type C14Res struct {
 	NSI     int      `json:"nsi"`
 	NXf     int      `json:"nxf"`
 	Text    string   `json:"t,omitempty"`    // kind C: dump of VerifC14CheckSheet
+	Bye     bool     `json:"bye,omitempty"`  // the worker retires after this answer
 	Slow    string   `json:"slow,omitempty"` // slowest call
 	SlowMs  int64    `json:"slowms,omitempty"`
 }
@@ -364,17 +365,21 @@ func c14WorkerMain() {
 			return
 		}
 		runtime.ReadMemStats(&ms1)
-		res.Alloc = ms1.TotalAlloc - ms0.TotalAlloc
+		// peak heap of this job: HeapSys does not shrink, and a worker whose heap grew is retired
+		// after answering (Bye), so the next job starts from a fresh process
+		res.Alloc = ms1.HeapSys
+		_ = ms0
 		res.Ms = time.Since(t0).Milliseconds()
 		if res.Outcome == "OK" && res.Alloc > c14AllocCap {
 			res.Outcome = "ALLOC"
 		}
+		res.Bye = ms1.HeapSys > 768<<20
 		js, _ := json.Marshal(res)
 		out.Write(js)
 		out.WriteByte('\n')
 		out.Flush()
-		if res.Alloc > 256<<20 {
-			debug.FreeOSMemory()
+		if res.Bye {
+			return
 		}
 	}
 }
@@ -495,6 +500,9 @@ func (pool *c14Pool) loop() {
 		case a := <-ch:
 			if a.err != nil || json.Unmarshal([]byte(a.line), &res) != nil {
 				res = C14Res{Outcome: "CRASH", Open: "?", Call: last.Load().(string)}
+				p.kill()
+				p = nil
+			} else if res.Bye {
 				p.kill()
 				p = nil
 			}
